@@ -62,9 +62,11 @@ func (p *Program) IsNewFunc(obj *types.Func) bool {
 type textEdit struct {
 	start, end int
 	text       string
+	group      int // edits of one inlining (an opening, the replaced call, a closing) are applied together or not at all
 }
 
 type inliner struct {
+	groups  int
 	p       *Program
 	pk      *packages.Package
 	file    *ast.File
@@ -222,6 +224,15 @@ func (p *Program) readSource(fname string) ([]byte, error) {
 
 func (in *inliner) off(pos token.Pos) int { return in.tf.Offset(pos) }
 
+// addGroup appends the edits of one inlining under a common group number.
+func (in *inliner) addGroup(es ...textEdit) {
+	in.groups++
+	for _, e := range es {
+		e.group = in.groups
+		in.edits = append(in.edits, e)
+	}
+}
+
 func (in *inliner) text(n ast.Node) string { return string(in.src[in.off(n.Pos()):in.off(n.End())]) }
 
 func (in *inliner) apply() ([]byte, []span) {
@@ -232,13 +243,36 @@ func (in *inliner) apply() ([]byte, []span) {
 		for _, sp := range in.imports {
 			text += "\nimport " + sp
 		}
-		in.edits = append(in.edits, textEdit{at, at, text})
+		in.edits = append(in.edits, textEdit{start: at, end: at, text: text})
 	}
 	sort.SliceStable(in.edits, func(i, j int) bool { return in.edits[i].start < in.edits[j].start })
+	// an inlining whose edits cannot all be applied (one of them lies inside a call that is replaced in this round) waits for the
+	// next round as a whole: half of it — a closing brace without its opening — does not parse
+	dropped := map[int]bool{}
+	for changed := true; changed; {
+		changed = false
+		last := 0
+		for _, e := range in.edits {
+			if e.group != 0 && dropped[e.group] {
+				continue
+			}
+			if e.start < last {
+				if e.group != 0 && !dropped[e.group] {
+					dropped[e.group] = true
+					changed = true
+				}
+				continue
+			}
+			last = e.end
+		}
+	}
 	var buf bytes.Buffer
 	var spans []span
 	last := 0
 	for _, e := range in.edits {
+		if e.group != 0 && dropped[e.group] {
+			continue
+		}
 		if e.start < last {
 			continue // overlapping: the inner one waits for the next round
 		}
@@ -371,7 +405,7 @@ func (in *inliner) site(call *ast.CallExpr, obj *types.Func, recv ast.Expr, stac
 		if listCtx(st, len(stack)-3) {
 			body, ok := in.expand(call, obj, recv, nil, nil, "")
 			if ok {
-				in.edits = append(in.edits, textEdit{in.off(st.Pos()), in.off(st.End()), body})
+				in.edits = append(in.edits, textEdit{start: in.off(st.Pos()), end: in.off(st.End()), text: body})
 			}
 			return
 		}
@@ -389,7 +423,7 @@ func (in *inliner) site(call *ast.CallExpr, obj *types.Func, recv ast.Expr, stac
 				}
 				body, ok := in.expand(call, obj, recv, lhs, nil, "")
 				if ok {
-					in.edits = append(in.edits, textEdit{in.off(st.Pos()), in.off(st.End()), pre + body})
+					in.edits = append(in.edits, textEdit{start: in.off(st.Pos()), end: in.off(st.End()), text: pre + body})
 				}
 				return
 			}
@@ -402,7 +436,7 @@ func (in *inliner) site(call *ast.CallExpr, obj *types.Func, recv ast.Expr, stac
 		if len(st.Results) == 1 && st.Results[0] == ast.Expr(call) && listCtx(st, len(stack)-3) {
 			body, ok := in.expand(call, obj, recv, nil, nil, "return")
 			if ok {
-				in.edits = append(in.edits, textEdit{in.off(st.Pos()), in.off(st.End()), body})
+				in.edits = append(in.edits, textEdit{start: in.off(st.Pos()), end: in.off(st.End()), text: body})
 			}
 			return
 		}
@@ -732,6 +766,9 @@ func (in *inliner) expand(call *ast.CallExpr, obj *types.Func, recv ast.Expr, lh
 			switch x := m.(type) {
 			case *ast.FuncLit:
 				if m != n {
+					// parameters and named results of the literal are declared inside the callee's body as well: they are renamed
+					// with their uses
+					walk(x.Type, true)
 					walk(x.Body, true)
 					return false
 				}
@@ -750,6 +787,41 @@ func (in *inliner) expand(call *ast.CallExpr, obj *types.Func, recv ast.Expr, lh
 					}
 					if nn, ok := ren[o]; ok {
 						eds = append(eds, ed{coff(x.Pos()), coff(x.End()), nn})
+					}
+				}
+			case *ast.AssignStmt:
+				// a := at the top level of the callee that re-uses a parameter or a named result ( header, err := f() with a named
+				// result err ): in the callee the body shares the scope of its parameters and results, in the inlined text they are
+				// declared outside the block — the := would declare a new variable there and the result would never be assigned
+				if x.Tok == token.DEFINE && !inLit {
+					reuses := false
+					for _, l := range x.Lhs {
+						if lid, ok := l.(*ast.Ident); ok && info.Defs[lid] == nil {
+							if o := info.Uses[lid]; o != nil && !(di.decl.Body.Lbrace < o.Pos() && o.Pos() < di.decl.Body.Rbrace) {
+								if _, isVar := o.(*types.Var); isVar {
+									reuses = true
+								}
+							}
+						}
+					}
+					if reuses {
+						decls := ""
+						okTypes := true
+						for _, l := range x.Lhs {
+							if lid, ok := l.(*ast.Ident); ok && lid.Name != "_" {
+								if o := info.Defs[lid]; o != nil {
+									tt, ok := in.typeTextFrom(o.Type(), di, needImports)
+									if !ok {
+										okTypes = false
+									}
+									decls += fmt.Sprintf("var %s_h%d %s; _ = %s_h%d; ", lid.Name, id, tt, lid.Name, id)
+								}
+							}
+						}
+						if okTypes {
+							eds = append(eds, ed{coff(x.Pos()), coff(x.Pos()), decls})
+							eds = append(eds, ed{coff(x.TokPos), coff(x.TokPos) + 2, "="})
+						}
 					}
 				}
 			case *ast.KeyValueExpr:
@@ -881,10 +953,10 @@ func (in *inliner) wrapInit(ifs *ast.IfStmt, init ast.Stmt, call *ast.CallExpr, 
 	}
 	// `else if` chains: an if that is the Else of another if cannot be wrapped in a block without changing the syntax tree shape;
 	// "else { ... }" is equivalent
-	in.edits = append(in.edits,
-		textEdit{in.off(ifs.Pos()), in.off(ifs.Pos()), "{ " + pre + body + "; "},
-		textEdit{in.off(init.Pos()), in.off(init.End()), ""},
-		textEdit{in.off(ifs.End()), in.off(ifs.End()), " }"})
+	in.addGroup(
+		textEdit{start: in.off(ifs.Pos()), end: in.off(ifs.Pos()), text: "{ " + pre + body + "; "},
+		textEdit{start: in.off(init.Pos()), end: in.off(init.End()), text: ""},
+		textEdit{start: in.off(ifs.End()), end: in.off(ifs.End()), text: " }"})
 }
 
 // hoist:  S[call]  =>  { var t T; <inlined: t = call>; S[t] }   when the call is the first thing S evaluates.
@@ -977,15 +1049,15 @@ func (in *inliner) hoist(call *ast.CallExpr, obj *types.Func, recv ast.Expr, sta
 	// a := / var declarations of stmt must stay visible after it: only wrap when stmt declares nothing
 	if as, ok := stmt.(*ast.AssignStmt); ok && as.Tok == token.DEFINE {
 		// declare the temp in front, keep the statement unwrapped
-		in.edits = append(in.edits,
-			textEdit{in.off(stmt.Pos()), in.off(stmt.Pos()), "var " + tmp + " " + ts + "; " + body + "; "},
-			textEdit{in.off(call.Pos()), in.off(call.End()), tmp})
+		in.addGroup(
+			textEdit{start: in.off(stmt.Pos()), end: in.off(stmt.Pos()), text: "var " + tmp + " " + ts + "; " + body + "; "},
+			textEdit{start: in.off(call.Pos()), end: in.off(call.End()), text: tmp})
 		return
 	}
-	in.edits = append(in.edits,
-		textEdit{in.off(stmt.Pos()), in.off(stmt.Pos()), "{ var " + tmp + " " + ts + "; " + body + "; "},
-		textEdit{in.off(call.Pos()), in.off(call.End()), tmp},
-		textEdit{in.off(stmt.End()), in.off(stmt.End()), " }"})
+	in.addGroup(
+		textEdit{start: in.off(stmt.Pos()), end: in.off(stmt.Pos()), text: "{ var " + tmp + " " + ts + "; " + body + "; "},
+		textEdit{start: in.off(call.Pos()), end: in.off(call.End()), text: tmp},
+		textEdit{start: in.off(stmt.End()), end: in.off(stmt.End()), text: " }"})
 }
 
 // evaluatedFirst: on the way from root down to call, the call is always the first operand evaluated and never conditional.
